@@ -100,6 +100,20 @@ fn alpha_beta_search(
         return NEG_INF;
     }
 
+    // the per-ply tables (pv, current line, killer moves) end at MAX_DEPTH, check extensions and the
+    // ply offset of the null move can carry a line past the nominal depth: treat such a node as the horizon
+    if ply_from_root >= MAX_DEPTH as i32 {
+        return quiesce(
+            start,
+            time_to_move_ms,
+            board,
+            alpha,
+            beta,
+            search_info,
+            zobrist_hasher,
+        );
+    }
+
     search_info.node_searched();
 
     // check for draw
